@@ -716,7 +716,7 @@ func (w *World) noteOrderTags(st *Step) {
 		if d := decodeInt(x[5]); d > 0 {
 			hs = append(hs, d)
 		}
-	case "Reduce", "Arg", "Repeat", "RoundTrip", "Trace", "Export", "Clone", "Materialize", "SafeT", "UnsafeUn", "UnsafeBinK", "Memset", "Zero":
+	case "Reduce", "Arg", "Repeat", "RoundTrip", "Trace", "Export", "Clone", "ShallowClone", "Materialize", "SafeT", "UnsafeUn", "UnsafeBinK", "Memset", "Zero":
 		hs = append(hs, st.Op.H)
 	case "Concat", "Stack":
 		hs = append(hs, decodeInts(a()[1])...)
